@@ -166,18 +166,20 @@ pub fn apply_filter(value: &Value, filter: &GrokFilter) -> Result<Value, Interna
         },
         GrokFilter::Scale(scale_factor) => {
             let scale_factor = scale_factor * 1000_f64 / 1000_f64;
+            // the product is NaN for a NaN capture ("nan") or for infinity times zero
+            let scaled = |v: f64| {
+                NotNan::new(v * scale_factor).map(Value::Float).map_err(|_e| {
+                    InternalError::FailedToApplyFilter(filter.to_string(), value.to_string())
+                })
+            };
             let v = match value {
-                Value::Integer(v) => Ok(Value::Float(
-                    NotNan::new((*v as f64) * scale_factor).expect("NaN"),
-                )),
-                Value::Float(v) => Ok(Value::Float(
-                    NotNan::new(v.into_inner() * scale_factor).expect("NaN"),
-                )),
+                Value::Integer(v) => scaled(*v as f64),
+                Value::Float(v) => scaled(v.into_inner()),
                 Value::Bytes(v) => {
                     let v = String::from_utf8_lossy(v).parse::<f64>().map_err(|_e| {
                         InternalError::FailedToApplyFilter(filter.to_string(), value.to_string())
                     })?;
-                    Ok(Value::Float(NotNan::new(v * scale_factor).expect("NaN")))
+                    scaled(v)
                 }
                 _ => Err(InternalError::FailedToApplyFilter(
                     filter.to_string(),
